@@ -3,6 +3,7 @@ import CarModel.Driver.Idx
 import CarModel.Driver.Ops
 import CarModel.Driver.Read
 import CarModel.Driver.Walk
+import CarModel.Driver.Crash
 namespace Car.Driver
 
 structure DState where
@@ -40,6 +41,7 @@ def step (st : DState) (line : String) : DState × String × String :=
     else if fam == "scan" then let r := famScan H kv; (st, r.1, r.2)
     else if fam == "mut" then let r := famMut H kv; (st, r.1, r.2)
     else if fam == "walk" then let r := famWalk H kv; (st, r.1, r.2)
+    else if fam == "crash" then let r := famCrash H kv; (st, r.1, r.2)
     else if fam == "idx" then let r := famIdx kv; (st, r.1, r.2)
     else (st, "bad-op", "")
 
